@@ -40,7 +40,7 @@ macro_rules! core_ops6_impl {
             use super::ops::{finish_pub as finish, src_pub as src, windowed};
             #[allow(unused_imports)]
             use super::*;
-            use crate::c12::ops::Shape;
+            use crate::c12::ops::{Shape, draw};
             use poulpy_bin_fhe::bdd_arithmetic::{FromBits, ToBits, UnsignedInteger};
             #[allow(unused_imports)]
             use poulpy_hal::layouts::{FillUniform, WriterTo};
@@ -201,8 +201,9 @@ macro_rules! core_ops6_impl {
                     ct.fill_uniform(13, &mut src(sh.seed ^ (i << 32), 6));
                     ct
                 };
-                let bit = (sh.seed >> 8) as usize % bits;
-                let byte = (sh.seed >> 8) as usize % bytes;
+                // bit / byte index: first, last, middle, anywhere
+                let bit = draw::index(sh.seed >> 8, bits);
+                let byte = draw::index(sh.seed >> 8, bytes);
                 let prepared_word = |big: &mut ScratchOwned<BE>| -> FheUintPrepared<DeviceBuf<BE>, T, BE> {
                     let enc = EncryptionLayout::new_from_default_sigma(c.ggsw_infos).unwrap();
                     let mut a: FheUintPrepared<DeviceBuf<BE>, T, BE> = FheUintPrepared::alloc_from_infos(m, &c.ggsw_infos);
@@ -267,8 +268,9 @@ macro_rules! core_ops6_impl {
                         let bb = mk(&infos1, 2);
                         let mut g = mk(&infos0, 99);
                         let slots = if op == "fhe_uint_splice_u8" { bytes } else { bits / 16 };
-                        let dst = (sh.seed >> 8) as usize % slots;
-                        let from = (sh.seed >> 12) as usize % slots;
+                        // destination and source slot: first, last, middle, anywhere; equal or not
+                        let dst = draw::index(sh.seed >> 8, slots);
+                        let from = draw::index(sh.seed >> 12, slots);
                         let declared = NO_QUERY;
                         let r = {
                             let mut res: FheUint<&mut [u8], T> = FheUint::from_glwe_to_mut(&mut g);
@@ -408,7 +410,7 @@ macro_rules! core_ops6_impl {
                         return Some(finish(r, declared, outs));
                     }
                     res.prepare(m, word, &b.key, big.borrow());
-                    let row = (sh.seed >> 8) as usize % rows;
+                    let row = draw::index(sh.seed >> 8, rows);
                     let col = (sh.seed >> 12) as usize % 2;
                     let declared = NO_QUERY;
                     let mut out = Vec::new();
@@ -420,7 +422,18 @@ macro_rules! core_ops6_impl {
                 let mut res: FheUintPrepared<DeviceBuf<BE>, T, BE> = FheUintPrepared::alloc_from_infos(m, &gi);
                 // the query gets the very objects the call gets (the entry assert does the same)
                 let per_thread = m.fhe_uint_prepare_tmp_bytes(b.block_size, 1, &res, word, &b.key);
-                let bit_start = (sh.seed >> 8) as usize % bits;
+                // bit window [bit_start, bit_start + bit_count) of the word (`bit_start + bit_count <= T::BITS`): from bit 0,
+                // ending exactly at the word size, straddling a byte boundary, anywhere
+                let window = |max_count: usize| -> (usize, usize) {
+                    let count = 1 + (sh.seed >> 16) as usize % max_count.min(bits);
+                    let start = match (sh.seed >> 8) % 4 {
+                        0 => 0,
+                        1 => bits - count,
+                        2 if bits > 8 && count > 1 => 8 * (1 + (sh.seed >> 10) as usize % (bits / 8 - 1)) - 1 - (sh.seed >> 13) as usize % (count - 1),
+                        _ => (sh.seed >> 10) as usize % (bits - count + 1),
+                    };
+                    (start, count)
+                };
                 let r = match op {
                     "fhe_uint_prepare" => {
                         let declared = per_thread;
@@ -435,14 +448,15 @@ macro_rules! core_ops6_impl {
                     }
                     "fhe_uint_prepared_prepare_custom" => {
                         // (the wrapper's fifth parameter is named `bit_end` and is handed on as the bit count)
-                        let bit_count = 1 + (sh.seed >> 16) as usize % (bits - bit_start).min(4);
+                        let (bit_start, bit_count) = window(4);
                         let declared = per_thread;
                         let r = windowed(declared, w, &mut |s| res.prepare_custom(m, word, bit_start, bit_count, &b.key, s));
                         finish(r, declared, all_bits(&res))
                     }
                     "fhe_uint_prepared_prepare_custom_multi_thread" => {
-                        let threads = 2 + (sh.extra as usize >> 1) % 3;
-                        let bit_count = 1 + (sh.seed >> 16) as usize % (bits - bit_start).min(6);
+                        let (bit_start, bit_count) = window(6);
+                        // 1, 2, a count that does not divide the bits, more threads than bits, more than 32
+                        let threads = draw::threads(sh.seed >> 20, bit_count);
                         let declared = threads * per_thread;
                         let r = windowed(declared, w, &mut |s| {
                             res.prepare_custom_multi_thread(threads, m, word, bit_start, bit_count, &b.key, s)
@@ -460,9 +474,9 @@ macro_rules! core_ops6_impl {
                 use poulpy_bin_fhe::bdd_arithmetic::{ExecuteBDDCircuit1WTo1W, Identity};
                 use poulpy_core::layouts::GLWEToRef;
                 let multi = op.ends_with("_multi_thread");
-                let threads = 2 + (sh.extra as usize >> 1) % 4;
                 let declared = NO_QUERY;
                 if op.starts_with("word_identity") {
+                    let threads = draw::threads(sh.seed >> 20, 32);
                     // encrypted 32-bit words need N >= 32
                     let n = if sh.n >= 64 { 64 } else { 32 };
                     let c = ctx(n, 1);
@@ -492,6 +506,7 @@ macro_rules! core_ops6_impl {
                 let k = 13 * (1 + sh.extra % 3) - (sh.seed % 5) as u32;
                 let res_infos = gl(sh.n, 13, k, 1);
                 let outputs = 1 + (sh.seed >> 8) as usize % 8;
+                let threads = draw::threads(sh.seed >> 20, outputs);
                 let circuit = SimCircuit::generate(sh.seed, outputs, 8);
                 let mut out: FheUint<Vec<u8>, u8> = FheUint::alloc_from_infos(&res_infos);
                 let r = if multi {
@@ -524,8 +539,11 @@ macro_rules! core_ops6_impl {
                         // same radix as the selector bits (13); precision from one to three limbs
                         let k = 13 * (1 + sh.extra % 3) - (sh.seed % 5) as u32;
                         let infos = gl(sh.n, 13, k, 1);
-                        let bit_rsh = (sh.extra as usize >> 2) % 3;
-                        let count = 1 + (sh.seed as usize >> 24) % 6;
+                        // 1..=17 entries (up to five accumulator levels); the selector bits used are offset..offset+levels
+                        // of the 8-bit word
+                        let count = 1 + (sh.seed as usize >> 32) % 17;
+                        let levels = (u32::BITS - (count.max(2) as u32 - 1).leading_zeros()) as usize;
+                        let bit_rsh = draw::index(sh.seed >> 20, 8 - levels + 1);
                         let cts: Vec<GLWE<Vec<u8>>> = (0..count as u64)
                             .map(|i| {
                                 let mut ct: GLWE<Vec<u8>> = GLWE::alloc_from_infos(&infos);
@@ -561,7 +579,7 @@ macro_rules! core_ops6_impl {
                             poulpy_hal::layouts::ScalarZnx::alloc(sh.n as usize, sh.rank_in as usize);
                         pt.fill_uniform(3, &mut src(sh.seed, 2));
                         let mut out = Vec::new();
-                        let row = sh.extra as usize % sh.dnum() as usize;
+                        let row = draw::index(sh.seed >> 12, sh.dnum() as usize);
                         if op == "gglwe_noise_via_struct" {
                             let infos = GGLWELayout {
                                 n: Degree(sh.n),
@@ -574,7 +592,7 @@ macro_rules! core_ops6_impl {
                             };
                             let mut ct: GGLWE<Vec<u8>> = GGLWE::alloc_from_infos(&infos);
                             ct.fill_uniform(sh.b_key as usize, &mut src(sh.seed, 6));
-                            let col = (sh.extra as usize >> 2) % sh.rank_in as usize;
+                            let col = draw::index(sh.seed >> 16, sh.rank_in as usize);
                             let declared = m.gglwe_noise_tmp_bytes(&infos);
                             let r = windowed(declared, w, &mut |s| out = stats_bytes(&ct.noise(m, row, col, &pt, &sp, s)));
                             finish(r, declared, vec![out])
@@ -589,7 +607,7 @@ macro_rules! core_ops6_impl {
                             };
                             let mut ct: GGSW<Vec<u8>> = GGSW::alloc_from_infos(&infos);
                             ct.fill_uniform(sh.b_key as usize, &mut src(sh.seed, 6));
-                            let col = (sh.extra as usize >> 2) % (rank as usize + 1);
+                            let col = draw::index(sh.seed >> 16, rank as usize + 1);
                             let declared = m.ggsw_noise_tmp_bytes(&infos);
                             let r = windowed(declared, w, &mut |s| out = stats_bytes(&ct.noise(m, row, col, &pt, &sp, s)));
                             finish(r, declared, vec![out])
@@ -602,8 +620,9 @@ macro_rules! core_ops6_impl {
                         let k_res = sh.b_res * (size_res - 1) + 1 + (sh.k_res % sh.b_res).min(sh.b_res - 1);
                         let k_big = sh.k_key.max(k_res);
                         let rows = |b: u32, k: u32| -> u32 { (k.div_ceil(b)).saturating_sub(1).max(1) };
-                        let n_lwe = sh.n_lwe.max(2);
-                        let block = if n_lwe % 3 == 0 { 3 } else if n_lwe % 2 == 0 { 2 } else { 1 };
+                        // block size 1..4 of the block-binary LWE secret; the LWE dimension is a multiple of it
+                        let block = 1 + (sh.seed >> 36) as u32 % 4;
+                        let n_lwe = sh.n_lwe.max(2).next_multiple_of(block);
                         let b_tsk = sh.b_key.saturating_sub(1).max(6);
                         let cbt_infos = CircuitBootstrappingKeyLayout {
                             brk_layout: BlindRotationKeyLayout {
@@ -688,13 +707,9 @@ macro_rules! core_ops6_impl {
                 let res_col = (sh.seed >> 7) as usize % res_cols;
                 // input limbs: normalised, or carrying what sums / products leave on them
                 let a_bits = [b_in, b_in + 7, 2 * b_in + 9, 50][(sh.seed >> 40) as usize % 4];
-                // offset: none, within a limb, across limbs; either sign
-                let span: i64 = match (sh.seed >> 16) % 4 {
-                    0 => 0,
-                    1 => b_res as i64,
-                    _ => 2 * b_res as i64 + 3,
-                };
-                let off: i64 = ((sh.seed >> 18) % (2 * span as u64 + 1)) as i64 - span;
+                // offset: none, within a limb, whole limbs, across several limbs, the whole precision of either side and
+                // beyond; either sign
+                let off: i64 = draw::offset(sh.seed >> 16, b_in, if sh.seed & 4 == 0 { size_in } else { size_res });
                 let r = if op.starts_with("hal_vec_znx_big_normalize_") {
                     let mut a: VecZnx<Vec<u8>> = VecZnx::alloc(n, a_cols, size_in);
                     a.fill_uniform(a_bits, &mut src(sh.seed, 6));
@@ -747,10 +762,11 @@ macro_rules! core_ops6_impl {
                         "hal_vec_znx_rsh_assign" => m.vec_znx_rsh_tmp_bytes(),
                         _ => return None,
                     };
-                    // shift amounts as the library's own tests (below the precision of the vector), the bound included;
-                    // a left shift may also push everything out
-                    let k_lsh = (sh.seed >> 8) as usize % ((size_in + 1) * b_in);
-                    let k_rsh = (sh.seed >> 8) as usize % (size_in * b_in + 1);
+                    // shift amounts: zero, below one limb, whole limbs, several limbs, the whole precision; a left shift
+                    // may also exceed it (everything is pushed out); the in-place right shift indexes limb
+                    // `size - steps - 1` and so accepts at most the precision of the vector (bound included)
+                    let k_lsh = draw::bits(sh.seed >> 8, b_in, size_in);
+                    let k_rsh = draw::bits(sh.seed >> 8, b_in, size_in).min(size_in * b_in);
                     let mut r = {
                         let mut a: VecZnx<&mut [u8]> = VecZnx::from_data(&mut a_buf[GUARD..GUARD + a_len], n, a_cols, size_in);
                         match op {
